@@ -5,6 +5,7 @@ executable predicates run on the implementation's output: `Spec/C18.lean`).
 -/
 import Bermuda.Lemmas.Units
 import Bermuda.Lemmas.UnitsPolicy
+import Bermuda.Lemmas.UnitsDisagg
 import Bermuda.Spec.C18
 namespace Bermuda.Properties.C18
 open Bermuda Bermuda.Units Bermuda.Spec.C18
@@ -69,6 +70,12 @@ theorem currency_sets_target {t out : List Cell} {target : String} {rates : List
   · exact hc
   · rw [(convertCell_spec hconv).2.2.2.2.2.1]
 
+-- OPEN currency_spec_bridge
+--   convertCurrency t target rates = .ok out →
+--   Spec.C18.currencySpec Spec.C18.moneyFields target (rates.map fun p => (p.1, p.2.toRat)) t out = true
+-- (`currency_spec` + `currency_cell_spec` + `mulNum_value` + `currencyFields_pinned` are the Prop
+--  form; that the greedy matching of `matchAll` finds the bijection is not proved)
+
 /-- refusal 1: a cell without currency anywhere in the triangle -/
 theorem currency_refuses_missing_currency {t : List Cell} {target : String}
     {rates : List (String × Num)} {c : Cell} (hc : c ∈ t) (hn : c.md.currency = none) :
@@ -90,13 +97,30 @@ theorem currency_refuses_missing_rate {t : List Cell} {target cur : String}
   obtain ⟨e, he⟩ := mapM_error_of_mem hsl this
   exact ⟨e, by unfold convertCurrency; simp [he, bind, Except.bind]⟩
 
--- OPEN currency_refusal_class
--- the error of both refusals is `ValueError` whenever no currency-field value is `None` and the
--- cell classes are consistent (the slice-level error IS `.valueError`, see the two proofs above;
--- what is missing is that an EARLIER slice cannot fail with another class):
---   (∀ c ∈ t, ∀ kv ∈ c.values, kv.2 ≠ .none) → kindsConsistent t →
---   (∃ c ∈ t, c.md.currency = none ∨ (foreign ∧ no rate)) →
---   convertCurrency t target rates = .error .valueError
+/-- **currency_refusal_class.** When some slice has no currency, or a foreign currency without a
+rate, and no currency-field value is `None`, the refusal is a `ValueError` (a `None` in a currency
+field of an earlier slice would surface first as the `TypeError` of `None * rate`). -/
+theorem currency_refusal_class {t : List Cell} {target : String} {rates : List (String × Num)}
+    (hnone : ∀ c ∈ t, ∀ kv ∈ c.values, Generated.Currency.currencyFields.contains kv.1 = true → kv.2 ≠ .none)
+    {c : Cell} (hc : c ∈ t)
+    (hbad : c.md.currency = none ∨ ∃ cur, c.md.currency = some cur ∧ cur ≠ target ∧
+      rates.find? (·.1 == cur) = none) :
+    convertCurrency t target rates = .error .valueError := by
+  obtain ⟨sl, hsl, hmd, _⟩ := slices_fst_mem hc
+  have hsle : convertSlice target rates sl = .error .valueError := by
+    unfold convertSlice
+    rcases hbad with hn | ⟨cur, hcur, hne, hr⟩
+    · rw [hmd, hn]
+    · rw [hmd, hcur]; simp [hne, hr]
+  obtain ⟨e, he⟩ := mapM_error_of_mem hsl hsle
+  obtain ⟨x, hx, hxe⟩ := mapM_error_first he
+  have : e = .valueError := by
+    rcases convertSlice_error hxe with h1 | ⟨_, c', hc', kv, hkv, hcf, hnn⟩
+    · exact h1
+    · exact absurd hnn (hnone c' (mem_slices_md hx hc').2 kv hkv hcf)
+  subst this
+  unfold convertCurrency
+  simp [he, bind, Except.bind]
 
 /-- non-vacuity: a one-cell EUR triangle converted to USD at 5/4 — the loss is multiplied, the
 claim count is not, the currency is set -/
@@ -135,18 +159,105 @@ theorem disagg_parts {v : Val} {ws : List Rat} {parts : List Val}
 
 example : ((renorm [1/4, 1/2]).map ((120 : Rat) * ·)).sum = 120 := disagg_sum 120 (by decide +kernel)
 
--- OPEN disagg_spec
--- the executable predicate holds on the model's own output for a semi-regular non-incremental
--- triangle t with scalar / 1-d values:
+/-- **disagg_conserves** (model-level form of "splits every cell into sub-periods whose values add
+up to the original"). Either the triangle already has the requested resolution and is returned as
+is, or there is a bijection between the input cells (`tin`, the input up to order) and groups of
+output cells (`parts`, whose concatenation is the output up to order) such that every group
+`SubCells`-belongs to its cell: the group's periods are exactly the cell's observable sub-periods in
+order (`obsSubs`: sub-period k is `[add_months(ps, k·res), add_months(ps, (k+1)·res) − 1 day]`, kept
+iff it is over at the evaluation date), same slice and evaluation date, plain `Cell`s, and —
+whenever the group is not empty — every selected field adds up to the original value, component
+by component (`total part f i = cellField c f i`).
+Hypothesis: value dicts have distinct keys (Python dicts). -/
+theorem disagg_conserves {t out : List Cell} {res : Nat} {weights : Option (List Num)}
+    {fields : Option (List String)} (hk : ∀ c ∈ t, (c.values.map (·.1)).Nodup)
+    (h : disaggregateExperience t res weights fields = .ok out) :
+    out = t ∨ ∃ tin parts, tin.Perm t ∧ out.Perm parts.flatten ∧
+      Forall2 (SubCells res fun f => (fields.getD Generated.Units.defaultInterpolationFields).contains f) tin parts := by
+  unfold disaggregateExperience at h
+  split at h
+  · cases h
+  · split at h
+    · cases h
+    · rename_i triRes hr
+      split at h
+      · cases h
+      · split at h
+        · -- the triangle already has the requested resolution: returned as is
+          simp only [Except.ok.injEq] at h; subst h
+          exact .inl rfl
+        · simp only at h
+          split at h
+          · cases h
+          · split at h
+            · cases h
+            · split at h
+              · cases h
+              · split at h
+                · cases h
+                · split at h
+                  · cases h
+                  · split at h
+                    · cases h
+                    · rename_i hsum
+                      split at h
+                      · cases h
+                      · generalize weightsOrDefault weights (triRes / (res : Int)).toNat = ws at h hsum
+                        have hws' : ws ≠ [] := by
+                          intro he; subst he; simp at hsum
+                        unfold disaggCore at h
+                        cases hm : (Triangle.slices t).mapM (fun sl => disaggSlice sl.2 res ws
+                            (fields.getD Generated.Units.defaultInterpolationFields)) with
+                        | error e => simp [hm, bind, Except.bind] at h
+                        | ok parts0 =>
+                          simp only [hm, bind, Except.bind] at h
+                          have hperm := ofCells_perm' h
+                          have hF := mapM_ok_forall2 hm
+                          have hF' : ∀ sl p0, sl ∈ Triangle.slices t →
+                              disaggSlice sl.2 res ws (fields.getD Generated.Units.defaultInterpolationFields) = .ok p0 →
+                              ∃ ps, p0 = ps.flatten ∧ Forall2 (SubCells res fun f =>
+                                (fields.getD Generated.Units.defaultInterpolationFields).contains f) sl.2 ps :=
+                            fun sl p0 hsl hp => disaggSlice_spec
+                              (fun c hc => hk c (mem_slices_md hsl hc).2) hws' hp
+                          have : ∃ pss : List (List (List Cell)), parts0 = pss.map List.flatten ∧
+                              Forall2 (fun sl ps => Forall2 (SubCells res fun f =>
+                                (fields.getD Generated.Units.defaultInterpolationFields).contains f) sl.2 ps)
+                                (Triangle.slices t) pss := by
+                            clear h hperm hm
+                            generalize Triangle.slices t = slices at hF hF' ⊢
+                            induction hF with
+                            | nil => exact ⟨[], rfl, .nil⟩
+                            | @cons sl p0 l₁ l₂ hab _ ih =>
+                              obtain ⟨ps, hp, hps⟩ := hF' sl p0 (by simp) hab
+                              obtain ⟨pss, hpss, hall⟩ := ih fun sl' p' hs' => hF' sl' p' (by simp [hs'])
+                              exact ⟨ps :: pss, by simp [hp, hpss], .cons hps hall⟩
+                          obtain ⟨pss, hp0, hall⟩ := this
+                          refine .inr ⟨(Triangle.slices t).flatMap (·.2), pss.flatten, slices_flatten_perm t, ?_,
+                            forall2_flatten_slices hall⟩
+                          rw [hp0] at hperm
+                          rw [List.flatten_flatten]
+                          exact hperm
+
+-- OPEN disagg_tiling
+-- calendar reading of `obsSubs` for first-of-month period starts: the kept sub-periods are
+-- consecutive whole `res`-month blocks forming a prefix of the period (`Spec.C18.tiles`, `complete`,
+-- `observable`) — facts about `addMonths` on first-of-month dates (C12 territory).
+-- Checked on the implementation's output by `Spec.C18.disaggSpec` in every run; the bridge
 --   disaggregateExperience t res ws fields = .ok out →
 --   Spec.C18.disaggSpec res (fields.getD defaultInterpolationFields) 0 t out = true
--- (needs: the observable sub-periods of distinct cells are disjoint and sorted, i.e. facts about
---  `addMonths` on month-aligned dates)
+-- is not proved.
 
 -- OPEN aggregate_disagg
---   aggregate (period length of t) (disaggregateExperience t res ws fields) = t.select fields
--- (on cells with an observable sub-period; `aggregate` is modelled under C08; checked on the
---  implementation by Spec.C18.aggBackSpec in every run)
+--   aggregate tr (disaggregateExperience t res ws fields) {periodRes := (L, "month"), periodOrigin := first ps − 1 day}
+--     = the cells of t with an observable sub-period, restricted to the selected fields, as CumulativeCells
+-- Both halves exist at model level: `disagg_conserves` above (every group adds up to its cell and has
+-- exactly the cell's observable sub-periods as periods) and C08's `aggPeriod_cell_spec` /
+-- `aggPeriod_conserves` (every window cell is the sum of the cells re-labelled into it, totals per
+-- evaluation date are kept). Missing: that the `walkUp` windows of `_aggregate_period` started at
+-- `first ps − 1 day` coincide with the original periods (month arithmetic of `addMonths` composed with
+-- itself on month-aligned dates), and the slice plumbing of `aggregateCum`. Checked on the
+-- implementation (`aggregate(disaggregate_experience(t))` against `t`) by `Spec.C18.aggBackSpec` in
+-- every run.
 
 /-! ### 3. accident_quarter_to_policy_year -/
 
@@ -222,6 +333,11 @@ theorem policyYear_conserves {t out : List Cell} {len : Nat} {origin : Date} {co
     simp only [hpys] at this
     have := List.all_eq_true.mp this row hrow
     simpa using this
+
+-- OPEN policyYear_spec_bridge
+--   … → Spec.C18.policyYearSpec 0 t out = true
+-- (`policyYear_conserves` + `policyYear_basis` are the Prop form, per metadata / evaluation date /
+--  field / component; the Bool predicate's grouping by `dedup` keys and `sumData` is not bridged)
 
 /-- non-vacuity: one accident quarter, calendar policy year, 12-month policies -/
 def exQ1 : Cell :=
@@ -333,5 +449,33 @@ theorem premium_earned_le_written {vol : Rat} {wp ep : List Rat} {wres eres ores
       rw [hS, hS]
       simp only [List.drop_zero, zero_add]
       exact monthlyCombined_prefix_le hmw hme hsum S
+
+theorem premium_lengths {vol : Rat} {wp ep : List Rat} {wres eres ores : Nat} {off : Int} {c : Bool}
+    {w e : List Rat} (h : programEarnedPremium vol wp wres ep eres ores off c = .ok (w, e)) :
+    w.length = e.length := by
+  unfold programEarnedPremium at h
+  split at h
+  · cases h
+  · simp only [Except.ok.injEq, Prod.mk.injEq] at h
+    obtain ⟨rfl, rfl⟩ := h
+    simp
+
+/-- **premium_spec.** the executable predicate (exact, `tol = 0`) holds on the model's own output -/
+theorem premium_spec {vol : Rat} {wp ep : List Rat} {wres eres ores : Nat} {off : Int} {c : Bool}
+    {w e : List Rat} (hv : 0 ≤ vol) (hwp : ∀ x ∈ wp, 0 ≤ x) (hep : ∀ x ∈ ep, 0 ≤ x)
+    (h : programEarnedPremium vol wp wres ep eres ores off c = .ok (w, e)) :
+    premiumSpec 0 vol w e = true := by
+  obtain ⟨hw, he⟩ := premium_sums h
+  obtain ⟨nw, ne⟩ := premium_nonneg hv hwp hep h
+  have hlen := premium_lengths h
+  unfold premiumSpec
+  simp only [zero_mul, hw, he, sub_self, add_zero, neg_zero, Bool.and_eq_true, beq_iff_eq,
+    decide_eq_true_eq, List.all_eq_true]
+  refine ⟨⟨⟨⟨⟨hlen, by simp [rabs]⟩, by simp [rabs]⟩, nw⟩, ne⟩, ?_⟩
+  intro p hp
+  rw [prefixSums_eq, prefixSums_eq, ← hlen, List.zip_map'] at hp
+  obtain ⟨k, _, rfl⟩ := List.mem_map.mp hp
+  simpa using premium_earned_le_written hv hwp hep h (k + 1)
+
 
 end Bermuda.Properties.C18
